@@ -1886,7 +1886,8 @@ sendASDUInternal(MasterConnection self, CS101_ASDU asdu)
         Semaphore_wait(self->sentASDUsLock);
 #endif
 
-        if (isSentBufferFull(self) == false) {
+        /* send directly only if no earlier response is still waiting in the high-priority queue (keep order) */
+        if ((isSentBufferFull(self) == false) && (HighPriorityASDUQueue_isAsduAvailable(self->highPrioQueue) == false)) {
 
             FrameBuffer frameBuffer;
 
